@@ -51,7 +51,7 @@ func TestC01(t *testing.T) {
 		ID: "C01",
 		Cfg: core.SimConfig{
 			Prop:   "C01",
-			Owned:  core.Own(core.CatComponents, core.CatInvIndex, core.CatInvTable, core.CatPanicMove),
+			Owned:  core.Own(core.CatComponents, core.CatInvIndex, core.CatInvTable, core.CatPanicMove, core.CatObserve),
 			Verify: core.FullVerify,
 		},
 		Mix:      fullMix(),
